@@ -14,6 +14,7 @@ Shared by C21 (clean restart), C20 (crash recovery) and C22 (lost / torn tail).
   `checkMutation`, `appendLog`, `handleMutation`, `rollbackOne`.
 * `replayG` is `DiskKV.replayLogs`; the flag says whether `mut.Reset()` is executed after every
   entry. `unmarshalInto` is proto3 merge-unmarshal into a message that was not reset.
+* `volatile` is the lease API (`kv/aof/volatile.go` → `kv/memory/lease.go`): memory only, never logged.
 * The WAL is an indexed list of entries with `Write` = append, `TruncateBack` = drop last,
   `LastIndex` = length (C22 refines this to bytes).
 -/
